@@ -1,11 +1,13 @@
 package checks
 
 import (
+	"errors"
 	"fmt"
 	"strconv"
 	"strings"
 
 	"github.com/codenotary/immudb/embedded/sql"
+	"github.com/codenotary/immudb/embedded/store"
 
 	"verifsim/simcore"
 )
@@ -62,6 +64,13 @@ func c11Body(r *simcore.Run) {
 		}
 		ntx, _, err := s.exec(tx, q)
 		r.Logf("dml: %s -> %v", q, err)
+		if err != nil && tx != nil && errors.Is(err, store.ErrKeyNotFound) && strings.Contains(q, "WHERE a =") {
+			// inside an open transaction the secondary index (snapshot taken now) shows a
+			// row committed by another session after the transaction took its snapshot of
+			// the primary index: UPDATE finds the row through the one and not in the other
+			r.Finding("stmt-error", "C11:per-index-snapshots-in-open-transaction", "%q inside an open transaction (other sessions committing meanwhile) failed with %v: the row read through the secondary index is missing from the transaction's older snapshot of the primary index", q, err)
+			r.EndRun()
+		}
 		if err != nil && !isBenignTxErr(err) && !isConstraintErr(err) {
 			r.Violation("stmt-error", "", "%q failed: %v", q, err)
 		}
@@ -93,7 +102,7 @@ func c11Body(r *simcore.Run) {
 	tasks = append(tasks, r.Sched.Go("query", func() {
 		for i := 0; i < 2+r.Intn(5); i++ {
 			r.Yield("c11-query")
-			if s.r.Sched.MaxLive("indexer") > 4 {
+			if s.r.Sched.MaxSameName("indexer") > 1 {
 				return // compaction restarted an index while it was indexing (C04 finding): not this property
 			}
 			if r.Pct(30) {
@@ -123,7 +132,7 @@ func c11Body(r *simcore.Run) {
 		}
 		r.Probe("c11-index-created-after-data")
 	}
-	if r.Sched.MaxLive("indexer") <= 4 {
+	if r.Sched.MaxSameName("indexer") <= 1 {
 		groups += c11Group(s, nil, true, indexes, "after the workload")
 		if r.Pct(40) {
 			s.reopen()
